@@ -163,8 +163,11 @@ def build(spec, rng):
             o = AxisOracle(grid, M, N, a["d"], a["ep"])
             orc.append(o)
             shape.append(o.size)
-    A = np.array([rng.randint(-9, 9) for _ in range(int(np.prod(shape)))],
-                 dtype=float).reshape(shape)
+    if spec.get("A") is not None and len(spec["A"]) == int(np.prod(shape)):
+        A = np.array(spec["A"], dtype=float).reshape(shape)
+    else:
+        A = np.array([rng.randint(-9, 9) for _ in range(int(np.prod(shape)))],
+                     dtype=float).reshape(shape)
     # "random polynomials of every admissible degree": optionally cut the degree
     for i, o in enumerate(orc):
         if o is not None and spec.get("degcut", {}).get(str(i)) is not None:
@@ -206,6 +209,7 @@ def direct_config(ctx, spec, rng):
     polyaxes = [i for i, o in enumerate(orc) if o is not None]
     jspec = json.loads(json.dumps(spec))
     jspec["A"] = A.astype(int).ravel().tolist()
+    spec = {k: v for k, v in spec.items() if k != "A"}   # A3 below must be fresh
 
     def fail(what, key, **extra):
         d = dict(kind="direct", spec=jspec, check=key)
@@ -249,6 +253,20 @@ def direct_config(ctx, spec, rng):
         if not close(q.coefficients, expected_coeffs(sub)):
             fail("changeBasis%s gives wrong coefficients" % (sub,), "changeBasis-subset",
                  target=list(sub))
+        # inverseTranspose (used for the collision array): the pairing sum(a*b) of a
+        # dual object with a polynomial is invariant under the joint change of basis
+        _, _, Adual = build(spec, rng)
+        pa = Polynomial(Adual.copy(), grid, b0, dirs, eps)
+        pb = make_poly(spec, grid, orc, A)
+        before = float(np.sum(pa.coefficients * pb.coefficients))
+        pa.changeBasis(swapped, inverseTranspose=True)
+        pb.changeBasis(swapped)
+        after = float(np.sum(pa.coefficients * pb.coefficients))
+        n += 1
+        if not abs(before - after) <= TOL * (1.0 + np.sum(np.abs(Adual)) *
+                                             np.max(np.abs(pb.coefficients))):
+            fail("changeBasis(inverseTranspose=True) is not the dual of changeBasis",
+                 "inverseTranspose-duality", before=before, after=after)
     except Exception as ex:  # noqa: BLE001
         fail("changeBasis raised %r" % ex, "changeBasis-raises")
     # --- evaluation: off-grid and on-grid points, all polynomial axes ------------------
@@ -649,6 +667,9 @@ def run(ctx):
     ctx.sample(dict(model_vs_impl="mclose tol (tnMatrix QOps Dz false g 4 5) <impl matrix>",
                     sizes=msizes, tensor_cases=len(terms)))
     # --- direct validation against numpy.polynomial.chebyshev ----------------------------
+    for M in range(2, 9 if ctx.quick else 33):
+        for N in (3, 5, 7, 9) if ctx.quick else range(3, 41, 2):
+            check_nodes(ctx, M, N)
     nchecks = 0
     for spec in gen_specs(ctx, rng):
         k = direct_config(ctx, spec, rng)
@@ -672,26 +693,49 @@ def run(ctx):
     ctx.trusted += ["numpy.polynomial.chebyshev (independent oracle of the direct checks)"]
 
 
+def check_nodes(ctx, M, N):
+    """hypotheses of the theorems about the grid (grid_ok): sizes, distinct increasing
+    nodes, end points -1 / +1, Gauss-Lobatto positions -cos(k pi / n)"""
+    grid = make_grid(M, N)
+    for d in DIRS:
+        n = quad_n(M, N, d)
+        full = np.asarray(grid.getCompactCoordinates(True, d), dtype=float)
+        want = -np.cos(np.arange(n + 1) * np.pi / n)
+        ctx.count("grid_nodes", [M, N, d])
+        ok = (full.shape == want.shape and np.all(np.diff(full) > 0) and
+              full[0] == -1.0 and full[-1] == 1.0 and
+              np.max(np.abs(full - want)) < 4e-16)
+        part = np.asarray(grid.getCompactCoordinates(False, d), dtype=float)
+        okp = np.array_equal(part, full[1:-1] if d != "pp" else full[:-1])
+        if not (ok and okp):
+            ctx.fail_input("grid nodes of direction %s are not the Gauss-Lobatto points "
+                           "-cos(k pi/n) with end points -1, +1 (M=%d, N=%d)" % (d, M, N),
+                           dict(kind="nodes", M=M, N=N, d=d, nodes=full.tolist()),
+                           key="grid-nodes")
+
+
 def replay(rep):
     import random
-    print(json.dumps({k: v for k, v in rep.items() if k != "spec"}, indent=1))
+    print(json.dumps({k: v for k, v in rep.items() if k != "spec"}, indent=1)[:2000])
     spec = rep.get("spec")
+    if rep.get("kind") == "nodes":
+        g = make_grid(rep["M"], rep["N"])
+        print("nodes", rep["d"], g.getCompactCoordinates(True, rep["d"]))
+        return 0
     if spec is None:
         return 0
 
     class Dummy:
         tier = "quick"
+        hits = 0
 
         def fail_input(self, what, r, key=None):
-            print("FAILS:", what)
+            self.hits += 1
+            print("REPRODUCED:", what)
 
-    A = spec.pop("A", None)
     print("configuration:", spec_name(spec))
-    rng = random.Random(0)
-    if A is not None:
-        # reproduce with the recorded coefficients
-        seq = iter(A)
-        orig = rng.randint
-        rng.randint = lambda a, b, _s=seq, _o=orig: next(_s, None) if False else _o(a, b)
-    direct_config(Dummy(), spec, rng)
+    d = Dummy()
+    direct_config(d, spec, random.Random(0))
+    if not d.hits:
+        print("not reproduced on this checkout")
     return 0
